@@ -2,6 +2,7 @@ package farm
 
 import (
 	"fmt"
+	"strconv"
 	"strings"
 
 	sdkmath "cosmossdk.io/math"
@@ -102,6 +103,10 @@ func (r *R) Gen(ctx sdk.Context, g *hx.Rng) string {
 			return "farm export"
 		}
 		return "farm reimport"
+	}
+	// the community-pool path: about one operation in five
+	if g.Chance(1, 5) {
+		return r.genCp(ctx, g, ps)
 	}
 	kind := g.Pick(7, 24, 13, 11, 9, 3, 26)
 	if len(live) == 0 && g.Chance(2, 3) {
@@ -314,10 +319,238 @@ func (r *R) Gen(ctx sdk.Context, g *hx.Rng) string {
 	}
 }
 
+// cpDenoms are the denominations the community pool is funded in (no liquidity-pool tokens: the
+// distribution module account never holds a stakeable token it did not get from a refund).
+var cpDenoms = []string{"btc", "eth", "stake"}
+
+// genCp draws one operation of the community-pool path from the real state: funding of the
+// community pool, proposals (self-bond only = rejected / applied only / both, 1–3 reward denoms
+// against MaxRewardCategories, applied funds above the community pool, proposers without funds,
+// deposits below the first-deposit threshold, between it and MinDeposit, at MinDeposit), and what
+// gov's EndBlocker does to a proposal (pass / reject / failed deposit), preferably a live one,
+// sometimes one that is already settled or does not exist.
+func (r *R) genCp(ctx sdk.Context, g *hx.Rng, ps []poolView) string {
+	props := r.proposals(ctx)
+	var liveV, liveD, done []uint64
+	for _, p := range props {
+		switch statusLetter(p.Status) {
+		case "V":
+			liveV = append(liveV, p.Id)
+		case "D":
+			liveD = append(liveD, p.Id)
+		default:
+			done = append(done, p.Id)
+		}
+	}
+	fp, err := r.env.App.DistrKeeper.FeePool.Get(ctx)
+	if err != nil {
+		hx.Fail("fee pool: %v", err)
+	}
+	pool, _ := fp.CommunityPool.TruncateDecimal()
+	gp, _ := r.env.App.GovKeeper.Params.Get(ctx)
+	govmin := sdk.NewCoins(gp.MinDeposit...).AmountOf("stake")
+	kind := g.Pick(5, 8, 7, 3, 3)
+	if pool.IsZero() && g.Chance(2, 3) {
+		kind = 0
+	}
+	if len(liveV)+len(liveD) == 0 && kind >= 2 && g.Chance(3, 4) {
+		kind = 1
+	}
+	pickId := func(pref []uint64) uint64 {
+		switch {
+		case len(pref) > 0 && !g.Chance(1, 6):
+			return pref[g.Intn(len(pref))]
+		case len(done) > 0 && g.Chance(2, 3):
+			return done[g.Intn(len(done))]
+		case len(props) > 0 && g.Chance(4, 5):
+			return props[g.Intn(len(props))].Id
+		}
+		return []uint64{99, 0, uint64(len(props) + 1)}[g.Intn(3)]
+	}
+	switch kind {
+	case 0: // fund_cp
+		k := 1 + g.Intn(2)
+		ds := sortedSubset(g, cpDenoms, k)
+		sender := []string{"A0", "A1", "A2", "A3", "A3", "A4"}[g.Intn(6)]
+		amt := coinList(ds, func(d string) sdkmath.Int {
+			switch g.Pick(8, 4, 2, 1, 1) {
+			case 0:
+				return sdkmath.NewInt(g.Range(50, 5000))
+			case 1:
+				return g.Amount(70)
+			case 2:
+				return sdkmath.NewInt(g.Range(1, 9))
+			case 3: // enough for a budget whose end height overflows later (see cp_submit)
+				return sdkmath.NewInt(9223372036854775807).AddRaw(g.Range(0, 1000))
+			}
+			return sdkmath.ZeroInt()
+		})
+		if g.Chance(1, 40) {
+			amt = "-"
+		}
+		return "farm fund_cp " + hx.KV("sender", sender, "amt", amt)
+	case 1: // cp_submit
+		// a budget of MaxInt64 − height blocks: accepted now (the dry run of the handler passes),
+		// but once the chain has moved on `ExpiredHeight` overflows and the handler of the passed
+		// proposal fails (status Failed, escrow refunded)
+		for _, c := range pool {
+			if c.Amount.GTE(sdkmath.NewInt(9223372036854775807)) && g.Chance(1, 3) {
+				return "farm cp_submit " + hx.KV("proposer", "A0", "title", "t", "desc", "late", "lpt", "lpt-1",
+					"rpb", c.Denom+":1", "applied", c.Denom+":"+sdkmath.NewInt(9223372036854775807-ctx.BlockHeight()).String(), "self", "-",
+					"deposit", "stake:"+govmin.String())
+			}
+		}
+		maxcat := int(r.env.Farm.MaxRewardCategories(ctx))
+		var inPool []string
+		for _, c := range pool {
+			inPool = append(inPool, c.Denom)
+		}
+		// applied part: denoms the community pool holds (mostly), 1–2 of them
+		src := inPool
+		if len(src) == 0 || g.Chance(1, 10) {
+			src = cpDenoms
+		}
+		na := 1
+		if len(src) > 1 && maxcat > 1 && g.Chance(1, 3) {
+			na = 2
+		}
+		ap := sortedSubset(g, src, na)
+		// self-bond part: other reward denoms, 0–2 of them, mostly within MaxRewardCategories
+		var rest []string
+		for _, d := range rewardDenoms {
+			in := false
+			for _, x := range ap {
+				in = in || x == d
+			}
+			if !in {
+				rest = append(rest, d)
+			}
+		}
+		ns := []int{0, 0, 1, 1, 1, 2}[g.Intn(6)]
+		if len(ap)+ns > maxcat && !g.Chance(1, 8) {
+			ns = maxcat - len(ap)
+			if ns < 0 {
+				ns = 0
+			}
+		}
+		sb := sortedSubset(g, rest, ns)
+		switch g.Intn(40) {
+		case 0: // self-bond only
+			sb = sortedSubset(g, append(append([]string{}, ap...), sb...), len(ap)+len(sb))
+			ap = nil
+		case 1: // the same denom applied and self-bonded
+			sb = sortedSubset(g, append(append([]string{}, sb...), ap[0]), len(sb)+1)
+		}
+		ds := sortedSubset(g, append(append([]string{}, ap...), sb...), len(ap)+len(sb)+1)
+		if len(ds) > 1 && ds[0] == ds[1] {
+			ds = ds[1:]
+		}
+		for i := 1; i < len(ds); i++ {
+			if ds[i] == ds[i-1] {
+				ds = append(ds[:i], ds[i+1:]...)
+				break
+			}
+		}
+		rpb := map[string]sdkmath.Int{}
+		tot := map[string]sdkmath.Int{}
+		for _, d := range ds {
+			rpb[d] = smallAmt(g)
+			if g.Chance(2, 3) {
+				rpb[d] = sdkmath.NewInt(g.Range(1, 9))
+			}
+			blocks := g.Range(1, 24)
+			isAp := false
+			for _, x := range ap {
+				isAp = isAp || x == d
+			}
+			if have := pool.AmountOf(d); isAp && have.IsPositive() && !g.Chance(1, 10) {
+				// fit the applied budget into the community pool
+				if rpb[d].GT(have) {
+					rpb[d] = have
+				}
+				if mx := have.Quo(rpb[d]); mx.LT(sdkmath.NewInt(blocks)) {
+					blocks = mx.Int64()
+				}
+			}
+			t := rpb[d].MulRaw(blocks)
+			if g.Chance(1, 3) && !isAp {
+				t = t.Add(sdkmath.NewInt(g.Range(0, 5)))
+			}
+			switch g.Intn(90) {
+			case 0:
+				t = rpb[d].SubRaw(1)
+			case 1:
+				t = sdkmath.ZeroInt()
+			case 2:
+				rpb[d] = sdkmath.ZeroInt()
+			case 3: // the end height overflows once the chain has moved on (handler fails at pass time)
+				rpb[d] = sdkmath.OneInt()
+				t = sdkmath.NewInt(9223372036854775807 - ctx.BlockHeight())
+			}
+			tot[d] = t
+		}
+		applied := coinList(ap, func(d string) sdkmath.Int { return tot[d] })
+		self := coinList(sb, func(d string) sdkmath.Int { return tot[d] })
+		rds := ds
+		if g.Chance(1, 30) && len(ds) > 1 {
+			rds = ds[:1]
+		}
+		proposer := []string{"A0", "A0", "A1", "A1", "A2", "A2", "A3", "A3", "A4"}[g.Intn(9)]
+		thr := govmin.QuoRaw(100)
+		var dep string
+		switch g.Pick(10, 5, 1, 1, 1) {
+		case 0:
+			dep = "stake:" + govmin.String()
+		case 1:
+			lo := thr
+			if lo.IsZero() {
+				lo = sdkmath.OneInt()
+			}
+			dep = "stake:" + lo.Add(sdkmath.NewInt(g.Range(0, 3))).String()
+		case 2:
+			dep = "stake:" + thr.SubRaw(1).Abs().String()
+		case 3:
+			dep = "-"
+		default:
+			dep = "btc:" + govmin.String()
+		}
+		title := "t"
+		if g.Chance(1, 40) {
+			title = "-"
+		}
+		desc := []string{"-", "cp", "usdt/iris"}[g.Intn(3)]
+		if g.Chance(1, 60) {
+			desc = strings.Repeat("y", 281)
+		}
+		lpt := []string{"lpt-1", "lpt-1", "lpt-1", "lpt-1", "lpt-1", "lpt-2", "lpt-2", "lpt-2", "lpt-9"}[g.Intn(9)]
+		return "farm cp_submit " + hx.KV("proposer", proposer, "title", title, "desc", desc, "lpt", lpt,
+			"rpb", coinList(rds, func(d string) sdkmath.Int { return rpb[d] }), "applied", applied, "self", self, "deposit", dep)
+	case 2:
+		return "farm cp_pass " + hx.KV("id", pickId(liveV))
+	case 3:
+		return "farm cp_reject " + hx.KV("id", pickId(liveV))
+	default:
+		return "farm cp_faildeposit " + hx.KV("id", pickId(liveD))
+	}
+}
+
 // Epilogue: every farmer withdraws everything, each at a random later height; the
 // success or failure of these withdrawals is an observation (C05). Then the chain runs on
 // past every pool's end so that each refund is observed (C06).
 func (r *R) Epilogue(ctx sdk.Context, g *hx.Rng, emit func(line string) sdk.Context) sdk.Context {
+	// gov finishes every live proposal (each escrow is settled: C06)
+	for _, p := range r.proposals(ctx) {
+		switch statusLetter(p.Status) {
+		case "V":
+			if g.Chance(1, 2) {
+				ctx = emit("farm cp_pass " + hx.KV("id", p.Id, "epi", 1))
+			} else {
+				ctx = emit("farm cp_reject " + hx.KV("id", p.Id, "epi", 1))
+			}
+		case "D":
+			ctx = emit("farm cp_faildeposit " + hx.KV("id", p.Id, "epi", 1))
+		}
+	}
 	fs := r.farmers(ctx)
 	// random order
 	for i := len(fs) - 1; i > 0; i-- {
@@ -389,6 +622,35 @@ func Run(env *hx.Env, rn *R, o hx.Opts) {
 func (r *R) branches(pre sdk.Context, f []string) []string {
 	a := hx.Args(f[2:])
 	h := pre.BlockHeight()
+	switch f[1] {
+	case "cp_pass", "cp_reject", "cp_faildeposit":
+		pid, _ := strconv.ParseUint(a["id"], 10, 64)
+		st := "none"
+		if p, err := r.env.App.GovKeeper.Proposals.Get(pre, pid); err == nil {
+			st = statusLetter(p.Status)
+		}
+		_, has := r.env.Farm.GetEscrowInfo(pre, pid)
+		return []string{fmt.Sprintf("branch.%s.status_%s.info_%v", f[1], st, has)}
+	case "end_block":
+		n, _ := strconv.ParseInt(a["n"], 10, 64)
+		var keys []string
+		for _, q := range r.queue(pre) {
+			if p, ok := r.env.Farm.GetPool(pre, q.Id); ok && r.sym(p.Creator) == "distr" && int64(q.H) >= h && int64(q.H) < h+n {
+				keys = append(keys, "branch.end_block.cp_pool_refund_due")
+			}
+		}
+		return keys
+	case "cp_submit":
+		k := "applied_only"
+		if a["self"] != "-" {
+			k = "applied_and_self"
+		}
+		if a["applied"] == "-" {
+			k = "self_only"
+		}
+		return []string{"branch.cp_submit." + k}
+	}
+
 	p, ok := r.env.Farm.GetPool(pre, a["pool"])
 	if !ok {
 		return nil
@@ -408,6 +670,9 @@ func (r *R) branches(pre sdk.Context, f []string) []string {
 		pos = "at_start"
 	}
 	keys := []string{fmt.Sprintf("branch.%s.%s", f[1], pos)}
+	if r.sym(p.Creator) == "distr" {
+		keys = append(keys, fmt.Sprintf("branch.cp_pool.%s.%s", f[1], pos))
+	}
 	if p.LastHeightDistrRewards == h && (f[1] == "stake" || f[1] == "unstake" || f[1] == "harvest") {
 		keys = append(keys, "branch.same_block_interleaving")
 	}
